@@ -1,24 +1,2 @@
 import CatiiModel.Indx
--- GENERATED by tools/translate_indx.py from IndxIO.save in src/catii/indxio.py; do not edit.
-namespace Catii.Gen
-open Catii.Indx
-
-/-- every write of `IndxIO.save`, in source order -/
-def saveProgram : List WOp := [
-  .const [73, 78, 68, 88],
-  .const [48, 48, 48, 49],
-  .pack 8 .bufferSize,
-  .pack 1 .arity,
-  .pack 4 .count,
-  .pack 1 .indexWordSize,
-  .packFmt .common,
-  .matrix,
-  .pack 1 .rowidWordSize,
-  .lengths,
-  .rowids]
-
-/-- `buffer_size` as the writer computes it before writing (n entries of `arity` coordinates, coordinate words of `wi`
-bytes, row-id words of `wr` bytes, `sumLen` row ids in total; exact Python integers) -/
-def bufferSizeGen (n arity wi wr sumLen : Nat) : Nat := 1 + 4 + 1 + wi + n * arity * wi + 1 + n * wr + sumLen * wr
-
-end Catii.Gen
+-- translation FAILED: payload-size term total_rowids * dtype.itemsize
